@@ -2,13 +2,13 @@
 // One file, registered three times (vlib/native.py places it in a scratch copy of the tree under check and runs `cargo test`):
 //   units/xrefchain  filter `c02_`  -> pdf/tests/verif_e2e_c02.rs      units/scan  filter `c17_`  -> pdf/tests/verif_e2e_c17.rs
 //   units/updater    filter `c09_`  -> pdf/tests/verif_e2e_c09.rs
-// Test functions named `candidate_*` are NOT registered (they do not start with one of the three filters): they hold inputs that
-// fail on /repo HEAD (6c18973, aebe012) and are written up as candidate findings:
-//   candidate_hybrid_xrefstm_objects_are_found            units/xrefchain/findings/hybrid_xrefstm_ignored.md
-//   candidate_save_of_a_file_with_undefined_numbers        units/updater/findings/save_fails_on_undefined_entries.md
-//   candidate_failed_create_leaves_the_document_savable    units/updater/findings/failed_create_blocks_save.md
+// Test functions named `candidate_*` are NOT registered (they do not start with one of the three filters):
+//   candidate_hybrid_xrefstm_objects_are_found   hybrid-reference files, an OBSERVATION outside the statement of C02
+//                                                (units/xrefchain/findings/hybrid_xrefstm_ignored.md); fails on /repo
 // Registered: c02_newest_mention_wins_end_to_end, c02_generator_selfcheck | c17_prefixed_file_reads_identically |
-//   c09_generated_files_write_save_reload, c09_corpus_files_write_save_reload, c09_failed_save_is_retried
+//   c09_generated_files_write_save_reload, c09_corpus_files_write_save_reload, c09_failed_save_is_retried,
+//   c09_save_of_a_file_with_undefined_numbers   (repaired defect units/updater/findings/save_fails_on_undefined_entries.md)
+//   c09_failed_create_leaves_the_document_savable (repaired defect units/updater/findings/failed_create_blocks_save.md)
 //
 // GENERATOR (hand-written bytes, no crate writer; `build`): a base body of 6 objects
 //     1 catalog, 2 page tree, 3 page (/Rotate r), 4 content stream, 5 integer, 6 string
@@ -608,15 +608,14 @@ fn c17_prefixed_file_reads_identically() {
                 Err(e) => fails.push(format!("{} with prefix `{}` ({} bytes): {}   FILE \"{}\"", b.what, name, p.len(), e, esc(&b.bytes))),
             }
             loads += 1;
-            // (files with an undefined number below /Size cannot be saved on /repo HEAD: candidate_save_of_a_file_with_undefined_numbers)
-            if !b.has_gap() && (loads % 3 == 0 || p.is_empty()) {
+            if loads % 3 == 0 || p.is_empty() {
                 if let Err(e) = save_after_update(&bytes, upto, &gens, target) { fails.push(format!("{} with prefix `{}` ({} bytes), update {} + create + save + reload: {}   FILE \"{}\"", b.what, name, p.len(), target.id, e, esc(&b.bytes))); }
                 saves += 1;
             }
         }
     });
     let _ = std::panic::take_hook();
-    assert!((n > 300 && loads == 7 * n && saves > n / 2) || fails.n > 0, "{} files {} loads {} saves", n, loads, saves);
+    assert!((n > 300 && loads == 7 * n && saves > n) || fails.n > 0, "{} files {} loads {} saves", n, loads, saves);
     println!("{} files, {} prefixed loads, {} update+save+reload runs", n, loads, saves);
     fails.finish("C17 bounded end to end: prefix ++ file reads as file", loads);
 }
@@ -767,7 +766,6 @@ fn c09_generated_files_write_save_reload() {
     let mut file_no = 0usize;
     let mut packed_files = 0usize;
     let n = universe(&FORMATS_3, &mut |b| {
-        if b.has_gap() { return; }   // candidate_save_of_a_file_with_undefined_numbers
         file_no += 1;
         let gens = gens_of(b);
         let upto = b.size + 3;
@@ -796,7 +794,7 @@ fn c09_generated_files_write_save_reload() {
     });
     let _ = std::panic::take_hook();
     assert!((n > 300 && runs_done > 2000 && packed_files > 50) || fails.n > 0, "{} files {} runs {} files with compressed targets", n, runs_done, packed_files);
-    println!("{} files of which {} without undefined numbers ({} with a compressed target), {} runs", n, file_no, packed_files, runs_done);
+    println!("{} files ({} with a compressed target), {} runs", file_no, packed_files, runs_done);
     fails.finish("C09 bounded end to end on generated files: write, save, reload", runs_done);
 }
 
@@ -900,7 +898,6 @@ fn c09_failed_save_is_retried() {
     let mut runs_done = 0usize;
     let mut k = 0usize;
     universe(&FORMATS_3, &mut |b| {
-        if b.has_gap() { return; }   // candidate_save_of_a_file_with_undefined_numbers
         k += 1;
         let target = [6u64, 5, 4].iter().find_map(|n| match b.expect.get(n) { Some(X::Val(g, _)) => Some(PlainRef { id: *n, gen: *g }), _ => None }).unwrap();
         let (v1, v2) = (k % N_VALUES, (k / N_VALUES) % N_VALUES);
@@ -925,7 +922,7 @@ fn c09_failed_save_is_retried() {
     fails.finish("C09 bounded end to end: a failed save is retried", runs_done);
 }
 
-// ------------------------------------------------------------------------------------------------ NOT registered (fail on /repo HEAD)
+// ------------------------------------------------------------------------------------------------ NOT registered: observation outside C02
 /// hybrid-reference file (ISO 32000-1 7.5.8.4): a classic section whose trailer has /XRefStm; the objects 5, 6 live in an object
 /// stream that only the /XRefStm stream mentions (the classic table lists them as free).
 #[test]
@@ -948,9 +945,10 @@ fn candidate_hybrid_xrefstm_objects_are_found() {
     fails.finish("hybrid-reference files (/XRefStm)", n);
 }
 
+// ------------------------------------------------------------------------------------------------ C09: the two repaired defects, pinned
 /// a loadable file in which a number below /Size is mentioned by no section (7, 8 and 10 here): update + create + save + reload
 #[test]
-fn candidate_save_of_a_file_with_undefined_numbers() {
+fn c09_save_of_a_file_with_undefined_numbers() {
     let _guard = ONE_AT_A_TIME.lock().unwrap_or_else(|e| e.into_inner());
     std::panic::set_hook(Box::new(|_| {}));
     let mut fails = Fails::new();
@@ -972,7 +970,7 @@ fn candidate_save_of_a_file_with_undefined_numbers() {
 
 /// a `create` whose value cannot be written (a stream whose info is not a dictionary) fails; the document must stay savable
 #[test]
-fn candidate_failed_create_leaves_the_document_savable() {
+fn c09_failed_create_leaves_the_document_savable() {
     let _guard = ONE_AT_A_TIME.lock().unwrap_or_else(|e| e.into_inner());
     let b = build(&[Section { fmt: Fmt::Classic, split: false, entries: base_entries(false), hybrid: false, omit_index: false }]);
     let (mut st, mut trailer) = open_storage(b.bytes.clone()).unwrap();
